@@ -20,6 +20,8 @@ StepEnum(ev) ==
   ELSE IF ev.err THEN Mis("C16:error", ev)
   ELSE IF ev.api = "len" THEN (IF ev.len = ev.n THEN TRUE ELSE Mis("C16:len", ev))
   ELSE /\ (IF ExactlyOnce(ev.keys, ev.n) THEN TRUE ELSE Mis("C16:not-exactly-once", ev))
+       \* the items presented carry their own values (asked for: present; not asked for: absent or right)
+       /\ (IF "badvals" \in DOMAIN ev /\ ev.badvals > 0 THEN Mis("C16:item-presented-with-wrong-value", ev) ELSE TRUE)
        /\ (IF ev.api = "block" /\ ev.mangler \in {"id", "nil"} /\ ev.n > 0
            THEN (IF ev.keys = BlockVisit(ev.n, Identity(Len(Starts(ev.n)))) THEN TRUE ELSE PrintT(<<"DRIFT", l, "block order differs from transcription">>))
            ELSE TRUE)
